@@ -203,6 +203,10 @@ func (g *G) stmt(c *gctx) []*N {
 		if P.Cross || P.Control {
 			add(3, func() []*N { return g.moduleAbrupt(c) })
 		}
+		if P.Control && !deep {
+			add(2, func() []*N { return g.returnListAlias(c) })
+			add(1, func() []*N { return g.longForBreak(c) })
+		}
 	}
 	if len(c.fns) > 0 {
 		add(8, func() []*N { return []*N{g.callStmt(c)} })
@@ -1210,6 +1214,49 @@ func (g *G) condRaises(c *gctx) []*N {
 		{K: "var", Ps: []string{ctr}, Ns: []*N{Int(0)}},
 		{K: "try", B: g.chance(50), Ss: [][]*N{{{K: "loop", Ns: []*N{cond}, Ss: [][]*N{body}}}, {{K: "expr", Ns: []*N{P1(g.id(), Id(z))}}}, {{K: "expr", Ns: []*N{P1(g.id(), Id(z))}}}}},
 		{K: "expr", Ns: []*N{P1(g.id(), Id(z))}},
+	}
+}
+
+// returnListAlias: `return la[0], f()` where f assigns la[0]: the values of a return list are the values
+// the expressions had when they were evaluated, left to right.
+func (g *G) returnListAlias(c *gctx) []*N {
+	g.feat("return_list_element_then_call_that_assigns_it")
+	g.nextFn++
+	fn := fmt.Sprintf("ra%d", g.nextFn)
+	v1, v3, v4 := g.val(), g.val(), g.val()
+	setter := &N{K: "acall", Ns: []*N{{K: "fn", Ss: [][]*N{{{K: "letidx", Ns: []*N{Id("la"), Int(0), v3}}, {K: "ret", Ns: []*N{v4}}}}}}}
+	ret := &N{K: "ret", Ns: []*N{{K: "idx", Ns: []*N{Id("la"), Int(0)}}, setter}}
+	if g.chance(30) {
+		ret = &N{K: "ret", Ns: []*N{{K: "idx", Ns: []*N{Id("la"), Int(0)}}, setter, {K: "idx", Ns: []*N{Id("la"), Int(0)}}}}
+	}
+	body := []*N{{K: "let", Ps: []string{"la"}, Ns: []*N{{K: "list", Ns: []*N{v1, g.val()}}}}, ret}
+	return []*N{
+		{K: "expr", Ns: []*N{{K: "fn", S: fn, Ss: [][]*N{body}}}},
+		{K: "expr", Ns: []*N{P1(g.id(), Call(fn))}},
+	}
+}
+
+// longForBreak: a for-in over a list of several hundred elements left by break (or skipping by continue)
+// at a chosen element: break ends the loop, whatever the length of the list.
+func (g *G) longForBreak(c *gctx) []*N {
+	g.feat("long_forin_left_by_break")
+	n := []int{300, 520, 777}[g.n(0, 2, "longn")]
+	k := []int{3, 100, 255, 256, 257, 300, 511, 512}[g.n(0, 7, "breakat")]
+	lst := &N{K: "list"}
+	for i := 0; i < n; i++ {
+		lst.Ns = append(lst.Ns, Int(int64(i)))
+	}
+	cnt := fmt.Sprintf("lc%d", g.id())
+	exit := &N{K: "break"}
+	body := []*N{{K: "if", Ns: []*N{Bin("==", Id("lv"), Int(int64(k)))}, Ss: [][]*N{{exit}}}, {K: "let", Ps: []string{cnt}, Ns: []*N{Bin("+", Id(cnt), Int(1))}}}
+	if g.chance(30) {
+		// continue at every element but a few: the loop still visits every element once
+		body = []*N{{K: "if", Ns: []*N{Bin("!=", Bin("%", Id("lv"), Int(int64(k+1))), Int(0))}, Ss: [][]*N{{{K: "cont"}}}}, {K: "let", Ps: []string{cnt}, Ns: []*N{Bin("+", Id(cnt), Int(1))}}}
+	}
+	return []*N{
+		{K: "var", Ps: []string{cnt}, Ns: []*N{Int(0)}},
+		{K: "forin", Ps: []string{"lv"}, Ns: []*N{lst}, Ss: [][]*N{body}},
+		{K: "expr", Ns: []*N{P1(g.id(), Id(cnt))}},
 	}
 }
 
